@@ -3,6 +3,7 @@ package main
 import (
 	"fmt"
 	"go/token"
+	"os"
 	"go/types"
 	"regexp"
 	"strconv"
@@ -200,10 +201,13 @@ func checkC06(p *Prog, r *Report) {
 					for _, c := range o.calls {
 						if strings.HasPrefix(c, "encoding/json.Unmarshal(data, &") {
 							v := strings.TrimSuffix(strings.TrimPrefix(c, "encoding/json.Unmarshal(data, &"), ")")
-							if strings.Contains(o.term, "&"+v) || strings.Contains(o.val.String(), "&"+v) {
+							if isVarTerm(o.term, v) || isVarTerm(o.val.String(), v) {
 								good = true
 							}
 						}
+					}
+					if os.Getenv("VERIF_DEBUG") != "" {
+						fmt.Fprintf(os.Stderr, "DBG decode-call %s term=%s val=%s calls=%v\n", key, o.term, o.val, o.calls)
 					}
 					r.decide(good, "C06.decode-call", key, p.pos(f.Pos()), "decoded by encoding/json into the returned variable", "the stored value is not the variable encoding/json decoded the raw bytes into: "+o.term)
 				}
@@ -519,4 +523,9 @@ func eachInstrOf(fns []*ssa.Function, fn func(ins ssa.Instruction)) {
 	for _, g := range fns {
 		eachInstr(g, fn)
 	}
+}
+
+// isVarTerm: the term is the variable v, its address or a load of it.
+func isVarTerm(term, v string) bool {
+	return strings.TrimLeft(term, "*&") == v && strings.Contains(term, "&")
 }
